@@ -482,10 +482,10 @@ def rule_range_parser(ctx, F):
             clo = P.strip(fm[0][2][1], calls=False)
             if clo[0] == "agg" and clo[1].startswith("closure:") and clo[1][len("closure:"):] in F.fns:
                 cf = F.fns[clo[1][len("closure:"):]]
-                if not cf.cfg.has_loops() and not any(b["term"]["k"] == "switch" for i_, b in enumerate(cf.blocks) if i_ in cf.cfg.reachable):
-                    r_ = P.strip(P.Prov(cf).local(0), calls=False)
-                    if r_[0] == "call" and r_[1] == "std::result::Result::<T, E>::ok" and len(r_[2]) == 1:
-                        pc = P.strip(r_[2][0], calls=False)
+                if not cf.cfg.has_loops():
+                    subj = I.result_ok_subject(P.Prov(cf).local(0))
+                    if subj is not None:
+                        pc = P.strip(subj, calls=False)
                         okc = pc[0] == "call" and pc[1] == f"<{TOKEN} as std::str::FromStr>::from_str" and P.strip(pc[2][0]) == ("param", 2)
         if not okc:
             problems.append("the filter_map closure is not |piece| HandRangeToken::from_str(piece).ok()")
